@@ -76,6 +76,9 @@ def get_finder_for(search_sid, config=None):  # get finder by Sid and optional c
 
 #########################################################
 # Config for GetFromAll
+getters_by_type = {}  # type: ignore  # filled on first use by get_getter_for
+
+
 def get_getter_for(sid, attribute=None, config=None):
     """
     Configuration used by GetFromAll, to define which Getter is used for a given Sid or Search Sid.
@@ -112,20 +115,22 @@ def get_getter_for(sid, attribute=None, config=None):
     if getter:
         return getter
 
-    getters_by_type = {
-        'project': None,
-        'asset': None,
-        'shot': None,
-        'asset__assettype': None,
-        'asset__state': None,
-        'shot__state': None,
-        # 'asset__asset': GetFromSG(),
-        # 'shot__shot': GetFromSG(),
-        # 'shot__sequence': GetFromSG(),
-        # 'shot__task': GetFromSG(),
-        # 'asset__task': GetFromSG(),
-        'default': GetFromPaths()
-    }
+    # The Getters are built once: GetFromAll groups the typed searches by Getter instance.
+    if not getters_by_type:
+        getters_by_type.update({
+            'project': None,
+            'asset': None,
+            'shot': None,
+            'asset__assettype': None,
+            'asset__state': None,
+            'shot__state': None,
+            # 'asset__asset': GetFromSG(),
+            # 'shot__shot': GetFromSG(),
+            # 'shot__sequence': GetFromSG(),
+            # 'shot__task': GetFromSG(),
+            # 'asset__task': GetFromSG(),
+            'default': GetFromPaths()
+        })
 
     if sid.type in getters_by_type:
         # getter can be explicitly None
